@@ -9,18 +9,18 @@ open StVerif StVerif.Stream Driver
 open StVerif.Spec
 
 /-- which revision of the move operations the code under test is expected to be -/
-def rev : Rev := .pinned
+def rev : Rev := .repaired
 
 def NOBJ : Nat := 3
 
 /-- identical to `lcg_bytes` in harness/stream.cpp -/
-def lcgBytes (seed n : Nat) : List Nat := Id.run do
-  let mut x := seed % 2147483648
-  let mut acc : Array Nat := Array.mkEmpty n
-  for _ in [0:n] do
-    x := (x * 1103515245 + 12345) % 2147483648
-    acc := acc.push ((x >>> 16) % 256)
-  return acc.toList
+def lcgGo : Nat → Nat → List Nat → List Nat
+  | 0, _, acc => acc.reverse
+  | n + 1, x, acc =>
+    let x := (x * 1103515245 + 12345) % 2147483648
+    lcgGo n x (((x >>> 16) % 256) :: acc)
+
+def lcgBytes (seed n : Nat) : List Nat := lcgGo n (seed % 2147483648) []
 
 def repr (bs : List Nat) : String :=
   if bs.length ≤ 32 then fmtUnits 8 bs
@@ -142,6 +142,12 @@ def judgeSnapshot (st : ByteLog.State) (snap : String) : Option String :=
 def expectedToString (bs : List Nat) (utf8 : Bool) (m : Mode) : Outcome (List Nat) :=
   if utf8 then Unicode.referenceString m bs else Unicode.reference .latin1 .utf8 m true bs
 
+/-- The spec state is a function; the driver keeps it as an array over the ids in use (a chain of
+    `ByteLog.step` closures would re-evaluate its whole past on every look-up). -/
+abbrev StArr := Array (Option (List Nat))
+def StArr.fn (a : StArr) : ByteLog.State := fun x => a.getD x none
+@[noinline] def StArr.step (a : StArr) (sop : ByteLog.Op) : StArr := (Array.range NOBJ).map (ByteLog.step a.fn sop)
+
 def opTarget : Op → Nat
   | .ctor o | .dtor o | .moveCtor o _ | .moveAssign o _ | .append o _ | .appendChar o _ _ | .appendText o _ _ _
   | .appendNum o _ _ | .truncate o _ | .erase o _ | .toString o _ _ => o
@@ -156,7 +162,7 @@ def handle (c : Case) : Verdict :=
   let obsAll := obsString c
   Id.run do
     let mut p := Pool.init
-    let mut st : ByteLog.State := ByteLog.State.init
+    let mut sa : StArr := (Array.range NOBJ).map fun _ => none
     let mut out := ""
     let mut i := 0
     let mut specWhy := ""
@@ -170,6 +176,7 @@ def handle (c : Case) : Verdict :=
       if dead then break
       -- the spec's expectation for this step
       let sop := op.toSpec
+      let st := sa.fn
       if !(ByteLog.ok st sop) then specWhy := if specWhy == "" then s!"step {i}: inadmissible history (generator error)" else specWhy
       let expectThrow := match op with
         | .appendText _ e m (some xs) => (textRendering e m xs).isNone
@@ -177,7 +184,8 @@ def handle (c : Case) : Verdict :=
       let expectR : Option String := match op with
         | .toString o u m => (st o).map fun bs => resultString (expectedToString bs u m)
         | _ => none
-      st := ByteLog.step st sop
+      sa := sa.step sop
+      let st := sa.fn
       -- the model
       let rTok : String := match op with
         | .toString o u m => match Stream.toString o u m p with
@@ -216,7 +224,7 @@ def handle (c : Case) : Verdict :=
       | some op =>
         let k := c.nat "k" 1
         let p0 := { p with allocs := 0, failAt := some k }
-        let before := st
+        let before := sa.fn
         let (res, p1) := match op.run rev p0 with
           | .ok _ p' => ("completed", p')
           | .throw .badAlloc p' => ("bad_alloc", p')
@@ -227,23 +235,24 @@ def handle (c : Case) : Verdict :=
         label := "." ++ res
         -- spec: a completed operation has its full effect; one that threw left every stream as it was —
         -- except that a signed-number overload may already have appended its '-' (two appends), which is labelled
-        let after := ByteLog.step before op.toSpec
+        let afterA := sa.step op.toSpec
+        let after := afterA.fn
         let obsRes := (obsKey c "f").getD ""
         let snap := (obsKey c "sf").getD "?"
         if specWhy == "" then
           if obsRes == "completed" then
             match judgeSnapshot after snap with
             | some why => specWhy := s!"fault step: {why}"
-            | none => st := after
+            | none => sa := afterA
           else if obsRes == "bad_alloc" || obsRes == "unicode_error" then
             match judgeSnapshot before snap with
             | none => pure ()
             | some why =>
-              let partialSt := match op with
-                | .appendNum o true _ => ByteLog.step before (.append o [45])
-                | _ => before
-              match judgeSnapshot partialSt snap with
-              | none => st := partialSt; label := label ++ ".partial-append"
+              let partialA := match op with
+                | .appendNum o true _ => sa.step (.append o [45])
+                | _ => sa
+              match judgeSnapshot partialA.fn snap with
+              | none => sa := partialA; label := label ++ ".partial-append"
               | some _ => specWhy := s!"fault step (threw {obsRes}): {why}"
           else specWhy := s!"fault step: outcome {obsRes}"
     -- destroy every live stream: nothing may be left on the heap
